@@ -2,7 +2,7 @@
    line, `name field field ...`; all parsing and printing is done here, in Gallina, so the OCaml
    driver only moves characters.  Field kinds: decimal number, hex byte string, and lists
    `L:hex:hex...` (`L` = empty list, `L:` = one empty string). *)
-From Scrapli Require Import Bytes Regex PlatformTypes Generated Generic Netconf.
+From Scrapli Require Import Bytes Regex PlatformTypes Generated Generic Netconf Channel Replay.
 Open Scope N_scope.
 
 Definition COLON : N := 58.
@@ -99,11 +99,90 @@ Definition run_c02 (fs : list bytes) : list bytes :=
     if beqb (unfields a) (unfields b) then a else [bs "model-internal-mismatch"]
   else show (record_fast v raw).
 
+(* ---- channel sessions: chan depth promptname ret start calls log ---- *)
+Definition BAR : N := 124. Definition COMMA : N := 44. Definition SEMI : N := 59.
+
+Definition names_to_res (f : bytes) : list re :=
+  match f with
+  | [] => []
+  | _ => flat_map (fun n => match lookup_rx n regex_table with Some r => [r] | None => [] end) (split_on COMMA f)
+  end.
+
+Definition parse_flags (f : bytes) : op_opts -> op_opts := fun o =>
+  mkOpts (if mem_byte 110 f then false else o_strip o)     (* n *)
+         (if mem_byte 101 f then true else o_eager o)      (* e *)
+         (if mem_byte 120 f then true else o_exact o)      (* x *)
+         (o_interim o) (o_complete o).
+
+Definition parse_event (f : bytes) : ievent :=
+  let ps := split_on SLASH f in
+  let resp := nthf 1 ps in
+  mkEv (of_hex (nthf 0 ps))
+       (if beqb resp [45] then None else lookup_rx resp regex_table)
+       (beqb (nthf 2 ps) [104]).
+
+Definition parse_call (cfg : chan_cfg) (spec : bytes) : prog bytes :=
+  let ps := split_on BAR spec in
+  let kind := nthf 0 ps in
+  if beqb kind (bs "in") then
+    let o := parse_flags (nthf 2 ps) default_opts in
+    send_input cfg (of_hex (nthf 1 ps)) (mkOpts (o_strip o) (o_eager o) (o_exact o) (names_to_res (nthf 3 ps)) [])
+  else if beqb kind (bs "gp") then get_prompt cfg
+  else if beqb kind (bs "ia") then
+    let o := parse_flags (nthf 1 ps) default_opts in
+    let evs := match nthf 3 ps with [] => [] | f => map parse_event (split_on SEMI f) end in
+    send_interactive cfg evs (mkOpts (o_strip o) (o_eager o) (o_exact o) [] (names_to_res (nthf 2 ps)))
+  else Fail EOperation.
+
+Definition parse_lev (t : bytes) : list lev :=
+  match t with
+  | 82 :: n => [LR (N.to_nat (parse_num n))]                         (* R<n> *)
+  | 87 :: r => let ps := split_on SLASH r in [LW (of_hex (nthf 0 ps)) (of_hex (nthf 1 ps))]
+  | [67] => [LCall] | [68] => [LDeadline] | [69] => [LEof] | [73] => [LIoerr]
+  | _ => []
+  end.
+Definition parse_log (f : bytes) : list lev :=
+  if beqb f [45] then [] else flat_map parse_lev (split_on COMMA f).
+
+Definition err_name (e : err) : bytes :=
+  match e with
+  | ETimeout => bs "timeout" | EConnection => bs "connection" | EAuth => bs "auth" | EPrivilege => bs "privilege"
+  | ETransport => bs "io" | EWrite => bs "write" | EOperation => bs "operation" | ENetconf => bs "netconf" | ENoOp => bs "noop"
+  end.
+
+Definition emit_out (o : call_out) : bytes :=
+  match o with
+  | COk r => bs "ok:" ++ to_hex r
+  | CErr e => bs "err:" ++ err_name e
+  | CUnfinished => bs "unfinished"
+  end.
+
+Definition emit_wlog (l : list (bytes * bool)) : bytes :=
+  emit_list (map (fun wr : bytes * bool => (if snd wr then [114] else [112]) ++ fst wr) l).   (* r|p + bytes *)
+
+Definition mk_cfg (fs : list bytes) : option chan_cfg :=
+  match lookup_rx (nthf 2 fs) regex_table with
+  | Some r => Some (mkCfg (N.to_nat (parse_num (nthf 1 fs))) r (of_hex (nthf 3 fs)) 0%Z)
+  | None => None
+  end.
+
+Definition run_chan (fs : list bytes) : list bytes :=
+  match mk_cfg fs with
+  | None => [bs "no-such-prompt-pattern"]
+  | Some cfg =>
+      let calls := map (parse_call cfg) (parse_list (nthf 5 fs)) in
+      let '(s, outs) := replay_session cfg (of_hex (nthf 4 fs)) (parse_log (nthf 6 fs)) calls in
+      [ join [COMMA] (map emit_out outs);
+        (if desynced s then bs "desync" else bs "sync");
+        emit_wlog (s_wlog s) ]
+  end.
+
 Definition dispatch (fs : list bytes) : list bytes :=
   let name := nthf 0 fs in
   if beqb name (bs "c13") then run_c13 fs
   else if beqb name (bs "rx") then run_rx fs
   else if beqb name (bs "c02") then run_c02 fs
+  else if beqb name (bs "chan") then run_chan fs
   else [bs "unknown-case"].
 
 Definition run_line (line : bytes) : bytes := unfields (dispatch (fields line)).
